@@ -253,6 +253,7 @@ func (st *State) queryRows(b *entBuilder) (rows *Term, n *Term) {
 	h := st.heap
 	rows = st.fresh("rows", ArrS(SInt, SInt))
 	pos := st.fresh("pos", ArrS(SInt, SInt))
+	st.ghostObj["lastpos"] = pos
 	n = st.fresh("n", SInt)
 	st.assume(Ge(n, IntLit(0)))
 	i := st.qv("i")
@@ -260,7 +261,7 @@ func (st *State) queryRows(b *entBuilder) (rows *Term, n *Term) {
 	ri := Select(rows, i)
 	st.assume(Forall([]*Term{i}, Implies(inRange(i), And(st.selFormula(h, b, ri), Eq(Select(pos, ri), i))), ri))
 	x := st.qv("x")
-	complete := Forall([]*Term{x}, Implies(st.selFormula(h, b, x), And(inRange(Select(pos, x)), Eq(Select(rows, Select(pos, x)), x))))
+	complete := Forall([]*Term{x}, Implies(st.selFormula(h, b, x), And(inRange(Select(pos, x)), Eq(Select(rows, Select(pos, x)), x))), st.rowLive(h, b.Table, x))
 	if b.Limit != nil {
 		st.assume(Le(n, b.Limit))
 		st.assume(Implies(Lt(n, b.Limit), complete))
@@ -564,7 +565,18 @@ func (st *State) mkEntities(t *entTable, b *entBuilder, rows, n *Term) *SliceV {
 	st.allocOff = 0
 	// the result slice
 	pt := types.NewPointer(t.Named)
-	return st.mkColumnSlice(pt, func(i *Term) *Term { return Add(w0, i) }, n)
+	res := st.mkColumnSlice(pt, func(i *Term) *Term { return Add(w0, i) }, n)
+	// bridge for the solver: from a selected row x directly to its entity object and its place in the result
+	if pos, ok := st.ghostObj["lastpos"].(*Term); ok && b.Kind == "query" {
+		x := st.qv("x")
+		px := Select(pos, x)
+		inRes := And(Ge(px, IntLit(0)), Lt(px, n), Eq(Select(rows, px), x))
+		ekey := "E|" + typeKey(pt) + "|"
+		ecur := st.heapGet(st.heap, ekey, ArrS(SInt, ArrS(SInt, SInt)), true)
+		idArr := st.heapGet(st.heap, tk+"|ID", ArrS(SInt, SInt), false)
+		st.assume(Forall([]*Term{x}, Implies(And(st.rowLive(h, t, x), inRes), And(Eq(Select(Select(ecur, res.Base), px), Add(w0, px)), Eq(Select(idArr, Add(w0, px)), x))), st.rowLive(h, t, x)))
+	}
+	return res
 }
 
 // scanInto implements Select(cols...).Scan(ctx, &v).
